@@ -4,7 +4,7 @@
 
 use crate::rng::Rng;
 use dlt_core::dlt::{FloatWidth, StringCoding, TypeInfo, TypeInfoKind, TypeLength};
-use dlt_core::fibex::{FibexMetadata, FrameMetadata, FrameMetadataIdentification, PduMetadata};
+use dlt_core::fibex::{FrameMetadata, PduMetadata};
 use std::collections::HashMap;
 
 #[derive(Clone, Debug)]
@@ -287,7 +287,29 @@ pub fn gen_layout(r: &mut Rng, m: &Model) -> Layout {
 /// first definition in (file order, document order) wins per frame id, per (context, app,
 /// frame id) and per PDU id; PDUs / signals ordered by sequence number; unknown signal
 /// references skipped.
-pub fn expected_metadata(m: &Model, l: &Layout) -> Option<FibexMetadata> {
+/// the expected model, keyed by plain tuples / strings in ordered maps so that neither building
+/// nor comparing it depends on the crate's own `Eq` / `Hash` implementations for its key type
+#[derive(Clone, Debug)]
+pub struct ExpectedMeta {
+    pub frame_map: std::collections::BTreeMap<String, FrameMetadata>,
+    /// (context id, application id, frame id)
+    pub keyed: std::collections::BTreeMap<(String, String, String), FrameMetadata>,
+}
+
+/// field-by-field comparison (no derived PartialEq of the crate involved above the leaf types)
+pub fn same_frame(a: &FrameMetadata, b: &FrameMetadata) -> bool {
+    a.short_name == b.short_name
+        && a.application_id == b.application_id
+        && a.context_id == b.context_id
+        && a.message_type == b.message_type
+        && a.message_info == b.message_info
+        && a.pdus.len() == b.pdus.len()
+        && a.pdus.iter().zip(&b.pdus).all(|(x, y)| {
+            x.description == y.description && x.signal_types.len() == y.signal_types.len() && x.signal_types.iter().zip(&y.signal_types).all(|(s, t)| format!("{:?}", s) == format!("{:?}", t))
+        })
+}
+
+pub fn expected_metadata(m: &Model, l: &Layout) -> Option<ExpectedMeta> {
     let sigmap: HashMap<&str, &str> = m.signals.iter().map(|(a, b)| (a.as_str(), b.as_str())).collect();
     let codmap: HashMap<&str, &str> = m.codings.iter().map(|(a, b)| (a.as_str(), b.as_str())).collect();
     let resolve = |s: &str| -> Option<TypeInfo> {
@@ -314,8 +336,8 @@ pub fn expected_metadata(m: &Model, l: &Layout) -> Option<FibexMetadata> {
             }
         }
     }
-    let mut fm: HashMap<String, FrameMetadata> = HashMap::new();
-    let mut fk: HashMap<FrameMetadataIdentification, FrameMetadata> = HashMap::new();
+    let mut fm: std::collections::BTreeMap<String, FrameMetadata> = Default::default();
+    let mut fk: std::collections::BTreeMap<(String, String, String), FrameMetadata> = Default::default();
     for f in &l.files {
         for e in f {
             if let El::F(fr) = e {
@@ -338,21 +360,13 @@ pub fn expected_metadata(m: &Model, l: &Layout) -> Option<FibexMetadata> {
                     message_info: mi,
                 };
                 if let (Some(c), Some(a)) = (&ctx, &app) {
-                    fk.entry(FrameMetadataIdentification {
-                        context_id: c.clone(),
-                        app_id: a.clone(),
-                        frame_id: fr.id.clone(),
-                    })
-                    .or_insert_with(|| meta.clone());
+                    fk.entry((c.clone(), a.clone(), fr.id.clone())).or_insert_with(|| meta.clone());
                 }
                 fm.entry(fr.id.clone()).or_insert(meta);
             }
         }
     }
-    Some(FibexMetadata {
-        frame_map_with_key: fk,
-        frame_map: fm,
-    })
+    Some(ExpectedMeta { frame_map: fm, keyed: fk })
 }
 
 pub fn esc_text(r: &mut Rng, s: &str) -> String {
